@@ -21,7 +21,9 @@ RULE = (
     "InvertMinimize on positive data; MinMaxScaler x 8 ranges x clip, StandarScaler x with_mean x with_std, PushNegatives, AddValueToZero "
     "x 7 values, NegateMinimize on any data), (b) random SEQUENCES of 1..5 of them, each step drawn among those whose domain holds at that "
     "point (sign state of matrix and weights tracked through the steps). Thorough adds (c) the exhaustive set: every matrix of shape "
-    "<= 3 x 2 over {-1,0,1,2} ({1,2} for the positive-data transformers) x every objective vector x every transformer. "
+    "<= 3 x 2 over {-1,0,1,2} ({1,2} for the positive-data transformers) x every objective vector x every transformer, and again "
+    "with ALL criteria int64 (and, two criteria, int64 next to float64): {1,2,3} for the positive-data transformers up to 3 x 2, "
+    "{-1,0,1,2} up to 4 cells. "
     "Oracle: per criterion and pair of alternatives the sign of the objective-oriented difference before vs after, and "
     "dm.dominance.dominance(strict=False/True) before vs after. Correspondence: Lean model of the pipeline (op tr) followed by the dom op "
     "vs the implementation's dominance tables after. Non-trivial: >= 2 alternatives; distinct by case hash."
@@ -245,6 +247,22 @@ def exhaustive_cases():
                         dm = {"matrix": mat, "objectives": list(objs), "weights": [1.0, 2.0][:n],
                               "alternatives": [f"A{i}" for i in range(m)], "criteria": [f"C{j}" for j in range(n)], "family": "dyadic"}
                         out.append({"kind": "exh", "dm": dm, "pipelines": [[p] for p in pipes]})
+    # the same with integer-typed criteria: ALL int64, and (two criteria) int64 next to float64.  The positive alphabet gets a third
+    # value so that a criterion can hold two different values >= 2; the 4-letter alphabet is kept to shapes of <= 4 cells
+    for m in (1, 2, 3):
+        for n in (1, 2):
+            for alphabet, pipes in (((-1.0, 0.0, 1.0, 2.0), EXH_ANY), ((1.0, 2.0, 3.0), EXH_POS)):
+                if len(alphabet) == 4 and m * n > 4:
+                    continue
+                for dtypes in (["int"] * n, ["int", "float"], ["float", "int"]):
+                    if len(dtypes) != n or ("float" in dtypes and m > 2):
+                        continue
+                    for cells in itertools.product(alphabet, repeat=m * n):
+                        mat = [list(cells[i * n:(i + 1) * n]) for i in range(m)]
+                        for objs in itertools.product((1, -1), repeat=n):
+                            dm = {"matrix": mat, "objectives": list(objs), "weights": [1.0, 2.0][:n], "alternatives": [f"A{i}" for i in range(m)],
+                                  "criteria": [f"C{j}" for j in range(n)], "family": "dyadic", "dtypes": dtypes}
+                            out.append({"kind": "exh", "dm": dm, "pipelines": [[p] for p in pipes]})
     return out
 
 
